@@ -114,44 +114,53 @@ Proof.
   eexists. split; [vm_compute; reflexivity|]. cbn. repeat constructor.
 Qed.
 
-(* ---- extended to `break` and the endless `repeat` (Lang/Simulation3.v) ----
-   Every call-free program made of the covered statements, if / else, blocks, `repeat while`, counted `repeat n`,
-   plain `repeat` and `break`, nested to any depth: the compiled and loaded code finishes on the machine model with
-   exactly the events of the reference semantics. *)
-From Bardolph Require Import Lang.Simulation3.
+(* ---- extended to `break`, the endless `repeat`, calls of routines and `return` (Lang/Simulation3.v, SimulationTop.v) ----
+   Every program made of routine definitions (at the top level, each name once, no routine reaching itself) and of the covered
+   statements, if / else, blocks, `repeat while`, counted `repeat n`, plain `repeat`, `break`, calls `f a b ...` whose arguments
+   are ordinary values, and `return`, nested to any depth: the compiled code, loaded (routine bodies moved out of line) and run
+   on the machine model from the initial state, finishes with exactly the events of the reference semantics. *)
+From Bardolph Require Import Lang.Builtins Lang.CallFrames Lang.Simulation3 Lang.SimulationTop.
 
-Theorem C01_structured_program_runs_as_its_source_says :
+Theorem C01_program_with_routines_runs_as_its_source_says :
   forall (p : script) (w : world) (fuel : nat) (evs : list event),
-    SimpleBL (snd (collect p [] [])) false p ->
+    top_ok (fst (collect p [] [])) (snd (collect p [] [])) p ->
     run_src fuel p w = SFinished evs ->
     exists k, run_program k (compile p) w = Finished evs.
-Proof. exact structured_program_runs_as_its_source_says. Qed.
-Print Assumptions C01_structured_program_runs_as_its_source_says.
+Proof. exact program_with_routines_runs_as_its_source_says. Qed.
+Print Assumptions C01_program_with_routines_runs_as_its_source_says.
 
-(* statement by statement, anywhere in an image, at any distance [after] from the END_LOOP of the enclosing loop: when the
-   source says the statement ends normally the machine is behind its code; when the source says it breaks the machine is
-   at that END_LOOP -- in both cases with the stack and the frames it started with *)
-Theorem C01_break_simulation :
-  forall rt mt inl st, SimpleB mt inl st ->
-  forall after im ss s sig ss' fuel, in_loop_ok inl after -> sim ss s -> code_at im (m_pc s) (c_stmt rt mt false after st) ->
+(* statement by statement, anywhere in an image whose routine table holds the compiled routine bodies, at any distance [after]
+   from the END_LOOP of the enclosing loop, inside a routine or not: when the source says the statement ends normally the machine
+   is behind its code; when the source says it breaks the machine is at that END_LOOP -- in both cases with the stack it started
+   with and frames that differ at most in the dictionary of the routine in progress; when the source says it returns, the machine
+   is behind the call, the loop frames and the call frame of the routine gone *)
+Theorem C01_statement_simulation :
+  forall rt mt inl inr st, SimpleB rt mt inl inr st ->
+  forall after im ss s sig ss' fuel, routines_loaded rt mt im -> in_loop_ok inl after -> in_ret_ok inr (m_frames s) ->
+  depth_ok (m_frames s) (zlength (m_stack s)) -> sim ss s -> code_at im (m_pc s) (c_stmt rt mt false after st) ->
   Sem.exec rt mt fuel false ss st = ROk sig ss' -> outcome after im ss s sig ss' (c_stmt rt mt false after st).
 Proof. intros rt mt. exact (proj1 (simpleB_simulation rt mt)). Qed.
-Print Assumptions C01_break_simulation.
+Print Assumptions C01_statement_simulation.
 
-Example C01_structured_nonvacuous :
-  let p := [SAssign "x" (RLit (LInt 0));
+Example C01_program_nonvacuous :
+  let p := [SDefineRoutine "blink" ["n"; "h"]
+              (SBlock [SReg R_HUE (RVar "h");
+                       SRepeat (LCount (RVar "n")) (SBlock [SOn OpAll; SIf (RExpr (EBin BGt (EVar "total") (ELit (LInt 2)))) (SReturn (Some (RVar "total"))) None;
+                                                            SAssign "total" (RExpr (EBin BAdd (EVar "total") (ELit (LInt 1)))); SOff OpAll]);
+                       SPrintln (Some (RVar "n"))]);
+            SDefineRoutine "twice" ["k"] (SBlock [SCall "blink" [RVar "k"; RLit (LInt 120)] false; SAssign "k" (RLit (LInt 0)); SCall "blink" [RLit (LInt 1); RVar "k"] true; SReturn None]);
+            SAssign "total" (RLit (LInt 0));
+            SAssign "x" (RLit (LInt 0));
             SRepeat LInfinite
                     (SBlock [SAssign "x" (RExpr (EBin BAdd (EVar "x") (ELit (LInt 1))));
-                             SIf (RExpr (EBin BGt (EVar "x") (ELit (LInt 3)))) SBreak None;
-                             SRepeat (LCount (RLit (LInt 5)))
-                                     (SBlock [SPrint (Some (RVar "x"));
-                                              SIf (RExpr (EBin BEq (EVar "x") (ELit (LInt 2)))) (SBlock [SOn OpAll; SBreak]) (Some (SReg R_HUE (RVar "x")))]);
+                             SIf (RExpr (EBin BGt (EVar "x") (ELit (LInt 2)))) SBreak None;
+                             SCall "twice" [RVar "x"] false;
                              SPrintln (Some (RVar "x"))]);
-            SRepeat (LWhile (RLit (LInt 1))) (SBlock [SSet OpAll; SBreak; SOff OpAll]);
-            SPrintln (Some (RVar "x"))] in
+            SCall "blink" [RLit (LInt 2); RLit (LInt 5)] false;
+            SPrintln (Some (RVar "total"))] in
   let w := [mkLight "a" "g" "l" KPlain [0; 0; 0; 0]] in
-  SimpleBL (snd (collect p [] [])) false p /\ exists evs, run_src 400 p w = SFinished evs /\ (8 <= length evs)%nat.
+  top_ok (fst (collect p [] [])) (snd (collect p [] [])) p /\ exists evs, run_src 400 p w = SFinished evs /\ (12 <= length evs)%nat.
 Proof.
-  split; [apply (simpleB_list_sound _ 10); vm_compute; reflexivity|].
+  split; [apply (top_ok_check _ _ 12); vm_compute; reflexivity|].
   eexists. split; [vm_compute; reflexivity|]. cbn. repeat constructor.
 Qed.
